@@ -17,38 +17,56 @@ def vc_consts(prog):
 
 
 def key_char_fn(prog):
-    """the local fn(u16) -> char whose body is one switch on its parameter"""
+    """the local fn(u16) -> char | Option<char> that the key event handlers call (the key→character table's entry point)"""
     hits = [k for k, f in prog.fns.items() if f.get("inputs") == ["u16"]
             and f.get("output") in ("char", "std::option::Option<char>")]
+    if len(hits) > 1:
+        callers = prog.trait_impl_methods("context::Method", "get_suggestion")
+        cg = prog.callgraph()
+        called = [h for h in hits if any(h in cg[c] for c in callers)]
+        if called:
+            hits = called
     if len(hits) != 1:
-        raise AnchorError("key→char table: fn(u16)->(Option<)char matched %d items %s" % (len(hits), hits))
+        raise AnchorError("key→char table: fn(u16)->(Option<)char called by the key handlers matched %d items %s" % (len(hits), hits))
     return hits[0]
 
 
 def key_char_table(prog):
-    """Returns (fn key, {keycode: char-or-None}, default_kind) where default_kind is
-    'panic' | 'value' | 'none' ... from the MIR switch of the key→char function."""
+    """Returns (fn key, {keycode: leaf E}, default) where the table is read by evaluating the extracted function over all
+    65 536 key codes (a finite space enumerated completely; works whatever the table's spelling: one match, split tables
+    joined by or_else, …).  default = ('value', None-aggregate E) | ('panic', callee) | ('unknown', None)."""
+    from engine.analyses import PredEval
+    if getattr(prog, "_key_table", None) is not None:
+        return prog._key_table
     k = key_char_fn(prog)
-    b = prog.body(k)
-    sw = switches_on(b, lambda e: e.k == "arg" and e.a[0] == 1)
-    if len(sw) != 1:
-        raise AnchorError("key→char table: expected one switch on the parameter, found %d" % len(sw))
-    bb, t = sw[0]
+    pe = PredEval(prog)
     table = {}
-    for (node, vals, tgt) in b.switch_edges(bb):
-        val, ch = leaf_assign(b, tgt, 0)
-        last = b.blocks[ch[-1]]["term"]
-        if vals == "otherwise":
-            if val is None:
-                # diverging default?
-                diverges = last["k"] in ("call",) and last.get("target") is None
-                default = ("panic", callee_name(last)) if diverges else ("unknown", None)
-            else:
-                default = ("value", val)
-            continue
-        for v in vals:
-            table[v] = val
-    return k, table, default
+    kinds = {}
+    returns_option = prog.fns[k]["output"].startswith("std::option::Option<")
+    for v in range(0x10000):
+        r = pe.call(k, [v])
+        if r is None:
+            kinds.setdefault("unknown", []).append(v)
+        elif isinstance(r, tuple) and r[0] == "diverges":
+            kinds.setdefault(("panic", r[1]), []).append(v)
+        elif returns_option and isinstance(r, tuple) and r[0] == "none":
+            kinds.setdefault("none", []).append(v)
+        elif returns_option and isinstance(r, tuple) and r[0] == "some" and isinstance(r[1], int):
+            table[v] = E("agg", "adt:std::option::Option::Some", (E("const", ("char", chr(r[1]))),))
+        elif not returns_option and isinstance(r, int):
+            table[v] = E("const", ("char", chr(r)))
+        else:
+            kinds.setdefault("unknown", []).append(v)
+    if "unknown" in kinds:
+        default = ("unknown", None)
+    elif any(isinstance(x, tuple) and x[0] == "panic" for x in kinds):
+        default = [x for x in kinds if isinstance(x, tuple)][0]
+    elif "none" in kinds:
+        default = ("value", E("agg", "adt:std::option::Option::None", ()))
+    else:
+        default = ("unknown", None)
+    prog._key_table = (k, table, default)
+    return prog._key_table
 
 
 def layout_table_fn(prog):
@@ -62,33 +80,78 @@ def layout_table_fn(prog):
     return hits[0]
 
 
-def layout_table(prog):
-    """Returns (fn key, rows {keycode: {'callee':…, 'literal':…, 'third': E, 'bb':…}}, default E)."""
+def layout_helpers(prog):
+    """(keyed helper, numpad helper) = the table function's callees (&Layout, &str, X) -> Option<String>."""
     k = layout_table_fn(prog)
-    b = prog.body(k)
-    sw = switches_on(b, lambda e: e.k == "arg" and e.a[0] == 2)
-    if len(sw) != 1:
-        raise AnchorError("key→layout-entry table: expected one switch on the key parameter, found %d" % len(sw))
-    bb, t = sw[0]
+    keyed = numpad = None
+    for g in prog.reach([k], foreign_trait_impls=False):
+        f = prog.fns[g]
+        ins = f.get("inputs") or []
+        if g == k or f.get("kind") == "Closure" or len(ins) != 3 or ins[1] != "&str" or not (f.get("output") or "").startswith("std::option::Option<std::string::String>"):
+            continue
+        if ins[2] == "bool":
+            numpad = g
+        else:
+            keyed = g
+    return keyed, numpad
+
+
+def layout_table(prog):
+    """Returns (fn key, rows {keycode: {'callee', 'literal', 'third', 'bb', 'val'}}, default E), read from every
+    path of the table function with its private helpers (e.g. split name tables) spliced in."""
+    from engine.analyses import sym_paths, PathLimit
+    from . import roles
+    if getattr(prog, "_layout_table", None) is not None:
+        return prog._layout_table
+    k = layout_table_fn(prog)
+    keyed, numpad = layout_helpers(prog)
+    b = roles.ib(prog, k, extra_stop=[x for x in (keyed, numpad) if x])
+    try:
+        paths = sym_paths(b, 0, 5000)
+    except PathLimit as e:
+        raise AnchorError("key→layout-entry table: cannot enumerate paths (%s)" % e)
     rows = {}
     default = None
-    for (node, vals, tgt) in b.switch_edges(bb):
-        val, ch = leaf_assign(b, tgt, 0)
-        if vals == "otherwise":
-            default = val
+    universe = set(range(0x10000))
+    for path, env, conds in paths:
+        keys = None
+        other = []
+        for (d, vals, allv, ty, bb) in conds:
+            ds = strip_refs(d)
+            if ds.k == "arg" and ds.a[0] == 2:
+                cur = set(vals) if vals != "otherwise" else None
+                if cur is None:
+                    keys = (keys if keys is not None else set(universe)) - set(allv)
+                else:
+                    keys = cur if keys is None else (keys & cur)
+            else:
+                other.append((ds, vals))
+        val = env.get(0)
+        last_call = [bb for (bb, _) in path if b.blocks[bb]["term"]["k"] == "call"]
+        row = {"bb": last_call[-1] if last_call else path[-1][0], "val": val, "other": other}
+        v = strip_refs(val) if val is not None else None
+        if v is not None and v.k == "call":
+            row["callee"] = v.a[0]
+            args = v.a[1]
+            if len(args) == 3:
+                lit = strip_refs(args[1])
+                row["literal"] = const_val(lit) if is_const(lit, "str") else None
+                row["recv"] = args[0]
+                row["third"] = strip_refs(args[2])
+        if keys is None:
+            keys = set(universe)
+        if len(keys) > 4096:
+            # the default region
+            if default is None or (v is not None and v.k == "agg"):
+                default = val
             continue
-        for v in vals:
-            row = {"bb": tgt, "val": val}
-            if val is not None and val.k == "call":
-                row["callee"] = val.a[0]
-                args = val.a[1]
-                if len(args) == 3:
-                    lit = strip_refs(args[1])
-                    row["literal"] = const_val(lit) if is_const(lit, "str") else None
-                    row["recv"] = args[0]
-                    row["third"] = strip_refs(args[2])
-            rows[v] = row
-    return k, rows, default
+        for kc in keys:
+            if kc in rows and rows[kc].get("literal") != row.get("literal"):
+                rows[kc] = {"bb": row["bb"], "val": None, "conflict": True}
+            else:
+                rows[kc] = row
+    prog._layout_table = (k, rows, default)
+    return prog._layout_table
 
 
 def header(ctx):
